@@ -164,6 +164,49 @@ func (c cfg) geom(r *vproto.Rng, k int) geom.Geom {
 	}
 }
 
+// wide builds a geometry of type k (1 LineString, 2 MultiLineString, 3 Polygon, 4 MultiPolygon) in which
+// exactly one nesting level has w members (all others 1..2)
+func wide(r *vproto.Rng, k, level, w int) geom.Geom {
+	cnt := func(l int) int {
+		if l == level {
+			return w
+		}
+		return r.Range(1, 2)
+	}
+	pts := func(l int) []geom.Point {
+		p := make([]geom.Point, cnt(l))
+		for i := range p {
+			p[i] = geom.Point{X: coord(r, false), Y: float64(i)}
+		}
+		return p
+	}
+	ptss := func(l int) []geom.Path {
+		p := make([]geom.Path, cnt(l))
+		for i := range p {
+			p[i] = pts(l + 1)
+		}
+		return p
+	}
+	switch k {
+	case 1:
+		return geom.LineString(pts(0))
+	case 2:
+		m := make(geom.MultiLineString, cnt(0))
+		for i := range m {
+			m[i] = pts(1)
+		}
+		return m
+	case 3:
+		return geom.Polygon(ptss(0))
+	default:
+		m := make(geom.MultiPolygon, cnt(0))
+		for i := range m {
+			m[i] = ptss(1)
+		}
+		return m
+	}
+}
+
 func gen(seed uint64, tier string) {
 	out := bufio.NewWriter(os.Stdout)
 	defer out.Flush()
@@ -213,6 +256,19 @@ func gen(seed uint64, tier string) {
 			emit(cfg{}.geom(r, 5+r.Intn(3)))
 		default:
 			emit(guarded.geom(r, r.Intn(5)))
+		}
+	}
+	// wide geometries: one nesting level with many members
+	nw := 3
+	if tier == "thorough" {
+		nw = 40
+	}
+	wdepth := map[int]int{1: 1, 2: 2, 3: 2, 4: 3}
+	for i := 0; i < nw; i++ {
+		for k := 1; k <= 4; k++ {
+			for level := 0; level < wdepth[k]; level++ {
+				emit(wide(r, k, level, []int{65, 129, 257, 1025}[r.Intn(4)]))
+			}
 		}
 	}
 	// cross-validation of the driver's exact decimal->binary64 conversion (spec-side component)
